@@ -943,6 +943,9 @@ def rand_c11(seed, tier, cases=None):
         out.append(dict(fam="C11", kind="payload", valid=True, mtu=20, pidon=pid, startid=start,
                         frames=[dict(len=1 + (j * 13) % 60, salt=j % 200, fillv=-1) for j in range(400)], **{"class": "long_run"}))
     out.append(dict(fam="C11", kind="payload", valid=True, mtu=12, pidon=True, startid=126, frames=[dict(len=6000, salt=4, fillv=-1), dict(len=5, salt=5, fillv=-1)], **{"class": "many_fragments"}))
+    # one frame of about 17 MB (beyond 2^24 bytes) through payloader and receiver (lengths and equality facts only)
+    for mtu in (65535, 1200):
+        out.append(dict(fam="C11", kind="huge", huge=17000000, mtu=mtu, valid=True, bytes=[], **{"class": "huge_frame_17MB"}))
     # the picture id taken through more than a full cycle the honest way (33 000 one-packet frames, no preset)
     out.append(dict(fam="C11", kind="payload", valid=True, mtu=20, pidon=True, startid=0, frames=[dict(len=1 + j % 3, salt=j % 200, fillv=-1) for j in range(33000)], **{"class": "full_cycle"}))
     return out
@@ -1032,6 +1035,9 @@ def rand_c10(seed, tier, cases=None):
         if pending:
             calls.append(dict(units=[pending.pop(), _nal(5, 2, 6, rng)], scs=[3, 3]))
         out.append(dict(fam="C10", kind="payloader", mtu=mtu, stapa=stap, calls=calls, **{"class": "rand_payloader"}))
+    # one NAL unit of about 17 MB (beyond 2^24 bytes) through payloader and receiver (lengths and equality facts only)
+    for mtu in (65535, 1200):
+        out.append(dict(fam="C10", kind="huge", huge=17000000, mtu=mtu, stapa=True, calls=[], **{"class": "huge_unit_17MB"}))
     # two parameter sets that each fit a 16-bit size field but not together (sum beyond 65535), in one call and across calls
     sps_big, pps_big = _nal(7, 3, 33000, rng), _nal(8, 3, 32600, rng)
     out.append(dict(fam="C10", kind="payloader", mtu=1200, stapa=True, calls=[dict(units=[sps_big, pps_big, _nal(5, 3, 40, rng)], scs=[4, 4, 4])], **{"class": "giant_parameter_sets"}))
@@ -1299,6 +1305,9 @@ def rand_c13(seed, tier, cases=None):
     out.append(dict(fam="C13", kind="payload", valid=True, mtu=10, obus=many, stream=_obu_stream(many), **{"class": "many_fragments"}))
     lots = [dict(type=6 if i else 1, ext=i % 9 == 8, tid=0, sid=0, r3=0, r1=0, hassize=True, payload=[(i + k) % 251 for k in range(1 + (i * 5) % 40)]) for i in range(40)]
     out.append(dict(fam="C13", kind="payload", valid=True, mtu=64, obus=lots, stream=_obu_stream(lots), **{"class": "many_obus"}))
+    # one OBU of about 17 MB (beyond 2^24 bytes) through payloader and receiver (lengths and equality facts only)
+    for mtu in (65535,):      # (at MTU 1200 the depacketizer re-copies its growing buffer for each of 14 000 packets: minutes, not a verdict)
+        out.append(dict(fam="C13", kind="huge", huge=17000000, mtu=mtu, valid=True, obus=[], stream=[], **{"class": "huge_obu_17MB"}))
     # an OBU just beyond the 2^21 boundary of LEB128 (its size field needs four bytes; one event of 40 MB)
     if True:
         huge = [dict(type=6, ext=False, tid=0, sid=0, r3=0, r1=0, hassize=True, payload=[(i * 7) % 251 for i in range(2097160)]),
